@@ -83,9 +83,9 @@ def body():
         # a CertificateVerify whose signature field proves nothing: empty, two zero INTEGERs, half of the genuine one
         "cv_sig_empty": (True, True, False), "cv_sig_zero": (True, True, False), "cv_sig_half": (True, True, False),
         # sequence deviations with otherwise good credentials: never a completed handshake
-        "ccs_early": (True, True, True), "no_ccs": (True, True, True), "ccs_twice": (True, True, True), "finished_plain": (True, True, True), "finished_wrong": (True, True, True), "no_finished": (True, True, True)}
-    MALFORMED = {"ccs_early", "no_ccs", "ccs_twice", "finished_plain", "finished_wrong", "no_finished"}
-    MALFORMED = {"ccs_early", "no_ccs", "ccs_twice", "finished_plain", "finished_wrong", "no_finished"}
+        "ccs_early": (True, True, True), "no_ccs": (True, True, True), "ccs_twice": (True, True, True), "finished_plain": (True, True, True), "finished_wrong": (True, True, True), "no_finished": (True, True, True),
+        "finished_x80x2": (True, True, True), "finished_swap": (True, True, True), "finished_tail": (True, True, True)}
+    MALFORMED = {"ccs_early", "no_ccs", "ccs_twice", "finished_plain", "finished_wrong", "no_finished", "finished_x80x2", "finished_swap", "finished_tail"}
     jobs = []
     for proto, sp in ((257, "tlcp"), (771, "srv"), (772, "srv")):
         jobs += [(proto, sp + "_d2", "trust_root", d, "cli_d2") for d in DEV if not (proto == 772 and "ccs" in d) and not (proto != 772 and d == "cv_alg_other")]          # TLS 1.3 has no ChangeCipherSpec
@@ -114,6 +114,9 @@ def body():
     SDEV = {257: {"honest": (True, True), "ske_wrong_key": (False, True), "ske_stale_random": (False, True), "no_ske": (False, False), "finished_wrong": (True, False), "finished_plain": (True, False), "no_ccs": (True, False)},
             772: {"honest": (True, True), "no_cv": (False, False), "no_cert": (False, False), "cv_wrong_key": (False, True), "cv_stale_transcript": (False, True), "cv_client_context": (False, True), "finished_wrong": (True, False)}}
     SDEV[772]["cv_alg_other"] = (False, True)
+    for pr_ in (257, 772):
+        for dname in ("finished_x80x2", "finished_swap", "finished_tail"):
+            SDEV[pr_][dname] = (True, False)
     for dname in ("sig_empty", "sig_zero", "sig_half"):          # degenerate signatures in the server's possession proof
         SDEV[257]["ske_" + dname] = (False, True)
         SDEV[772]["cv_" + dname] = (False, True)
